@@ -2,9 +2,9 @@ package main
 
 import (
 	"fmt"
-	"os"
 	"go/token"
 	"go/types"
+	"os"
 	"strings"
 
 	"golang.org/x/tools/go/ssa"
@@ -901,7 +901,7 @@ func (o *ownCtx) checkAcquireErrorExits(ru *Rule, fnK string, acqKeys []string, 
 
 func paramByName(fn *ssa.Function, name string) *ssa.Parameter {
 	for _, p := range fn.Params {
-		if p.Name() == name {
+		if paramIs(p, name) {
 			return p
 		}
 	}
